@@ -372,6 +372,14 @@ class InverseMatcher(WrappingMatcher):
     def supports_block_quality(self):
         return False
 
+    def max_quality(self):
+        # Every posting this matcher generates scores self._weight; the
+        # quality of the wrapped (negated) matcher is irrelevant
+        return self._weight
+
+    def block_quality(self):
+        return self._weight
+
     def _find_next(self):
         child = self.child
         missing = self.missing
